@@ -211,10 +211,20 @@ func c19Data(seed int64, nrec int, v6 bool, poisonAt int, bare bool, hdr ...int6
 			c.srcIP, c.dstIP = "", ""
 		} else if v6 {
 			s, d := net.ParseIP(fmt.Sprintf("2001:db8::%x", 1+r.IntN(60000))), net.ParseIP(fmt.Sprintf("2001:db8:1::%x", 1+r.IntN(60000)))
+			if r.IntN(5) == 0 {
+				// network addresses: nothing after the first 32 bits - the same leading octets as some
+				// IPv4 address of the same stream (dual-stack clusters have both)
+				k := r.IntN(3)
+				s, d = net.ParseIP(fmt.Sprintf("a4d:%x::", k)), net.ParseIP(fmt.Sprintf("ac10:%x::", k))
+			}
 			c.srcIP, c.dstIP = s.String(), d.String()
 			els = append(els, entities.NewIPAddressInfoElement(ie("sourceIPv6Address", I), s), entities.NewIPAddressInfoElement(ie("destinationIPv6Address", I), d))
 		} else {
 			s, d := net.IPv4(10, byte(r.Uint32()), byte(r.Uint32()), byte(r.Uint32())).To4(), net.IPv4(172, byte(r.Uint32()), byte(r.Uint32()), byte(r.Uint32())).To4()
+			if r.IntN(5) == 0 {
+				k := r.IntN(3)
+				s, d = net.IPv4(10, 77, 0, byte(k)).To4(), net.IPv4(172, 16, 0, byte(k)).To4()
+			}
 			c.srcIP, c.dstIP = s.String(), d.String()
 			// records built in the same program (net.ParseIP, net.IPv4) carry IPv4 addresses in
 			// their 16-byte form; decoded ones in the 4-byte form: both are the same address
